@@ -47,6 +47,16 @@ def mk_id(code, scheme):
     return frozenset([code, -1])
 
 
+def _strict(conv, exc):
+    """`conv`, except that a failed conversion raises `exc` instead of ValueError"""
+    def f(x):
+        try:
+            return conv(x)
+        except ValueError:
+            raise exc(x)
+    return f
+
+
 def err_kind(ex):
     if isinstance(ex, nx.NetworkXNotImplemented):
         return "E:NXNI"
@@ -497,7 +507,21 @@ class Impl:
             with open(p, "w") as fh:
                 fh.write("".join(l + "\n" for l in lines))
             rd = _el.read_interactions if int(kind) else _el.read_snapshots
-            H = rd(p, directed=bool(int(cls)), nodetype=int, timestamptype=int, keys=True)
+            main_exc = None
+            try:
+                H = rd(p, directed=bool(int(cls)), nodetype=int, timestamptype=int, keys=True)
+            except Exception as ex:  # noqa
+                main_exc = ex
+            for nt, tt in ((_strict(int, KeyError), _strict(int, ZeroDivisionError)),):
+                try:
+                    rd(p, directed=bool(int(cls)), nodetype=nt, timestamptype=tt, keys=True)
+                    other = None
+                except Exception as ex:  # noqa
+                    other = ex
+                if (other is None) != (main_exc is None) or (other is not None and err_kind(other) != err_kind(main_exc)):
+                    return "converter-exception-leaks:%s-instead-of-%s" % (type(other).__name__, type(main_exc).__name__)
+            if main_exc is not None:
+                raise main_exc
         finally:
             shutil.rmtree(tmp, ignore_errors=True)
         self.slots[int(dst)] = H
@@ -841,6 +865,24 @@ class Impl:
         al = [int(x) / 100.0 for x in alphas[:int(k)]]
         return self._conf_out(delta_conformity(G, int(start), int(delta), al, ["a"], path_type=PT))
 
+    def op_confp(self, s, start, delta, ptype, psize, nl, *rest):
+        """delta_conformity with several labels and profile_size: confp slot start delta ptype psize  nl l..  na a..  nt (node label value)*"""
+        import copy
+        from dynetx.algorithms.assortativity import delta_conformity
+        nl = int(nl)
+        labels = [int(x) for x in rest[:nl]]
+        rest = rest[nl:]
+        na = int(rest[0]); alphas = [int(x) / 100.0 for x in rest[1:1 + na]]
+        rest = rest[1 + na:]
+        nt = int(rest[0]); tr = [int(x) for x in rest[1:1 + 3 * nt]]
+        G = copy.deepcopy(self.G(s))
+        for i in range(nt):
+            n, l, v = tr[3 * i:3 * i + 3]
+            if self.I(n) in G._node:
+                G._node[self.I(n)]["L%d" % l] = v
+        PT = ["shortest", "fastest", "foremost", "fastest_shortest", "shortest_fastest"][int(ptype)]
+        return self._conf_out(delta_conformity(G, int(start), int(delta), alphas, ["L%d" % l for l in labels], profile_size=int(psize), path_type=PT))
+
     def op_sconf(self, s, delta, ptype, k, *alphas):
         from dynetx.algorithms.assortativity import sliding_delta_conformity
         G = self.G(s)
@@ -865,8 +907,24 @@ class Impl:
             n = int(rest[i]); lines.append("".join(chr(int(c)) for c in rest[i + 1:i + 1 + n])); i += 1 + n
         d = None if delim == "-" else chr(int(delim))
         fn = _el.parse_interactions if int(kind) else _el.parse_snapshots
-        self.slots[int(dst)] = fn(lines, comments=chr(int(comment)), directed=bool(int(cls)), delimiter=d,
-                                  nodetype=int, timestamptype=int)
+        main_exc = None
+        try:
+            self.slots[int(dst)] = fn(lines, comments=chr(int(comment)), directed=bool(int(cls)), delimiter=d,
+                                      nodetype=int, timestamptype=int)
+        except Exception as ex:  # noqa
+            main_exc = ex
+        # converters that signal failure with other exception classes (a lookup table, a parser of fractions):
+        # "a field that cannot be converted raises TypeError" whatever the converter raises (impl-only cross check)
+        for nt, tt in ((_strict(int, KeyError), int), (int, _strict(int, ZeroDivisionError)), (_strict(int, OverflowError), _strict(int, ArithmeticError))):
+            try:
+                fn(lines, comments=chr(int(comment)), directed=bool(int(cls)), delimiter=d, nodetype=nt, timestamptype=tt)
+                other = None
+            except Exception as ex:  # noqa
+                other = ex
+            if err_kind(other) != err_kind(main_exc) if (other is not None and main_exc is not None) else (other is None) != (main_exc is None):
+                return "converter-exception-leaks:%s-instead-of-%s" % (type(other).__name__, type(main_exc).__name__)
+        if main_exc is not None:
+            raise main_exc
         for n in self.slots[int(dst)]._node:
             self.rev.setdefault(n, n)
         # the same text with another node type: same graph, nodes of that type (impl-only cross check)
